@@ -69,6 +69,9 @@ pub struct Failure {
     /// real name of the file and 1-based line of the offending directive; None when rssl reports
     /// no position (entry file failure, chain errors)
     pub at: Option<(String, u32)>,
+    /// 1-based line on which the offending construct starts, when that is not the reported line
+    /// (a comment that never ends is reported at the end of the file)
+    pub starts_at: Option<u32>,
 }
 
 #[derive(Clone, Debug)]
@@ -221,6 +224,70 @@ fn lex_line(text: &str, file: &str, line: u32, col0: u32) -> Result<Vec<Tok>, St
     Ok(out)
 }
 
+
+/// Replace comments by spaces without moving any other byte, so that lines and byte columns stay
+/// what they are in the file. Returns the masked text and, if a block comment never ends, the
+/// 1-based line it starts on.
+fn mask_comments(text: &str) -> (String, Option<u32>) {
+    let b = text.as_bytes();
+    let mut out: Vec<u8> = Vec::with_capacity(b.len());
+    let mut i = 0;
+    let mut line = 1u32;
+    let mut unterminated = None;
+    while i < b.len() {
+        let c = b[i];
+        if c == b'\n' {
+            line += 1;
+            out.push(c);
+            i += 1;
+        } else if c == b'"' {
+            // a string (include operand): copied verbatim up to its end on this line
+            let mut j = i + 1;
+            while j < b.len() && b[j] != b'"' && b[j] != b'\n' {
+                j += 1;
+            }
+            let end = if j < b.len() && b[j] == b'"' { j + 1 } else { j };
+            out.extend_from_slice(&b[i..end]);
+            i = end;
+        } else if c == b'/' && b.get(i + 1) == Some(&b'/') {
+            while i < b.len() && b[i] != b'\n' {
+                out.push(if b[i] == b'\r' { b'\r' } else { b' ' });
+                i += 1;
+            }
+        } else if c == b'/' && b.get(i + 1) == Some(&b'*') {
+            let start_line = line;
+            let mut j = i + 2;
+            let mut closed = false;
+            while j < b.len() {
+                if b[j] == b'*' && b.get(j + 1) == Some(&b'/') {
+                    closed = true;
+                    break;
+                }
+                j += 1;
+            }
+            let end = if closed { j + 2 } else { b.len() };
+            for &x in &b[i..end] {
+                if x == b'\n' {
+                    line += 1;
+                    out.push(x);
+                } else if x == b'\r' {
+                    out.push(x);
+                } else {
+                    out.push(b' ');
+                }
+            }
+            if !closed {
+                unterminated = Some(start_line);
+            }
+            i = end;
+        } else {
+            out.push(c);
+            i += 1;
+        }
+    }
+    (String::from_utf8(out).unwrap_or_default(), unterminated)
+}
+
 impl State<'_> {
     fn active(&self) -> bool {
         self.chain
@@ -248,6 +315,23 @@ impl State<'_> {
                         disabled.pop();
                         r?;
                         i += 1;
+                        // C rescans the replacement together with the rest of the source, so a
+                        // replacement that ends in the name of a function-like macro picks up a
+                        // following "(": that rescanning rule is outside the modelled subset
+                        if let Some(Tok {
+                            atom: Atom::Id(last),
+                            ..
+                        }) = out.last()
+                            && toks.get(i).map(|t| &t.atom) == Some(&Atom::Punct('('))
+                            && self
+                                .macros
+                                .iter()
+                                .any(|m| &m.name == last && matches!(m.body, Body::Paste))
+                        {
+                            return Err(Stop::Unmodelled(
+                                "replacement ends in a function-like macro name followed by (".into(),
+                            ));
+                        }
                         continue;
                     }
                     Body::Paste => {
@@ -382,10 +466,15 @@ impl State<'_> {
         if !self.pasted.iter().any(|p| p == real) {
             self.pasted.push(real.to_string());
         }
-        let mut text = contents;
-        if text.starts_with('\u{feff}') {
+        if contents.starts_with('\u{feff}') {
             return Err(Stop::Unmodelled("byte order mark".into()));
         }
+        let (masked, unterminated) = mask_comments(contents);
+        if !masked.is_ascii() {
+            return Err(Stop::Unmodelled("non-ASCII character outside a comment".into()));
+        }
+        let eof_line = contents.matches('\n').count() as u32 + 1;
+        let mut text = masked.as_str();
         let mut line_no = 0u32;
         // split on '\n'; a trailing fragment without newline is a line too
         while !text.is_empty() {
@@ -395,6 +484,18 @@ impl State<'_> {
                 None => (text, "", false),
             };
             text = rest;
+            if unterminated == Some(line_no) {
+                // the lexer meets a comment that never ends: reported at the end-of-file position
+                // (text in front of the comment on the same line is outside the subset)
+                if !line.trim().is_empty() {
+                    return Err(Stop::Unmodelled("text before an unterminated comment".into()));
+                }
+                return Err(Stop::Fail(Failure {
+                    kind: FailKind::Lex,
+                    at: Some((real.to_string(), eof_line)),
+                    starts_at: Some(line_no),
+                }));
+            }
             self.steps += 1;
             if self.steps > STEP_BUDGET {
                 return Err(Stop::Unmodelled("step budget exceeded".into()));
@@ -415,6 +516,7 @@ impl State<'_> {
                 return Err(Stop::Fail(Failure {
                     kind: FailKind::Lex,
                     at: Some((real.to_string(), line_no)),
+                    starts_at: None,
                 }));
             }
             if line.ends_with('\\') {
@@ -518,6 +620,7 @@ impl State<'_> {
                         Err(Stop::Fail(Failure {
                             kind: FailKind::Load(string.to_string()),
                             at: here(),
+                            starts_at: None,
                         }))
                     }
                     Ok((canonical, contents)) => {
@@ -534,6 +637,7 @@ impl State<'_> {
                             return Err(Stop::Fail(Failure {
                                 kind: FailKind::Depth,
                                 at: None,
+                                starts_at: None,
                             }));
                         }
                         self.run_file(&canonical, &contents, depth + 1)
@@ -570,6 +674,7 @@ impl State<'_> {
                     None => Err(Stop::Fail(Failure {
                         kind: FailKind::Condition,
                         at: here(),
+                        starts_at: None,
                     })),
                 }
             }
@@ -586,6 +691,7 @@ impl State<'_> {
                     None => Err(Stop::Fail(Failure {
                         kind: FailKind::Chain,
                         at: None,
+                        starts_at: None,
                     })),
                     Some(Gate::ElseEnabled | Gate::ElseDisabled) => {
                         Err(Stop::Unmodelled("#elif after #else".into()))
@@ -608,6 +714,7 @@ impl State<'_> {
                     None => Err(Stop::Fail(Failure {
                         kind: FailKind::Chain,
                         at: None,
+                        starts_at: None,
                     })),
                     Some(Gate::ElseEnabled | Gate::ElseDisabled) => {
                         Err(Stop::Unmodelled("#else after #else".into()))
@@ -629,6 +736,7 @@ impl State<'_> {
                     None => Err(Stop::Fail(Failure {
                         kind: FailKind::Chain,
                         at: None,
+                        starts_at: None,
                     })),
                     Some(_) => Ok(()),
                 }
@@ -760,6 +868,7 @@ pub fn run(fs: &FsSpec, faults: &[Fault], entry: &str, defines: &[(String, Strin
                 Verdict::Fail(Failure {
                     kind: FailKind::Load(entry.to_string()),
                     at: None,
+                    starts_at: None,
                 }),
             );
         }
@@ -775,6 +884,7 @@ pub fn run(fs: &FsSpec, faults: &[Fault], entry: &str, defines: &[(String, Strin
                 Verdict::Fail(Failure {
                     kind: FailKind::Chain,
                     at: None,
+                    starts_at: None,
                 })
             }
         }
